@@ -44,6 +44,30 @@ Section C08.
   Proof. exact (forwarded_exact pf reparse reparse_arr reparse_preds sugg sim interp_with interp_fn interp_attrs). Qed.
 End C08.
 
+(** Hence the RESULT of every element-level receiver is the same for any two partitions of the
+    same selected items over the element's attributes (the element being otherwise unchanged). *)
+Theorem C08_receivers_partition_invariant :
+  forall pf reparse reparse_arr reparse_preds sugg sim interp_with interp_fn interp_attrs interp_data,
+    (forall b attrs attrs', same_selection b attrs attrs' ->
+       from_attributes pf reparse reparse_arr reparse_preds sugg sim interp_with interp_fn interp_attrs b attrs
+       = from_attributes pf reparse reparse_arr reparse_preds sugg sim interp_with interp_fn interp_attrs b attrs')
+    /\ (forall b pass i attrs attrs' ident vis ty, same_selection b attrs attrs' ->
+          from_field pf reparse reparse_arr reparse_preds sugg sim interp_with interp_fn interp_attrs (FcRecv b pass) (mkFE i attrs ident vis ty)
+          = from_field pf reparse reparse_arr reparse_preds sugg sim interp_with interp_fn interp_attrs (FcRecv b pass) (mkFE i attrs' ident vis ty))
+    /\ (forall b pass fm sup i attrs attrs' ident discr style fields, same_selection b attrs attrs' ->
+          from_variant pf reparse reparse_arr reparse_preds sugg sim interp_with interp_fn interp_attrs (VcRecv b pass fm sup) (mkVE i attrs ident discr style fields)
+          = from_variant pf reparse reparse_arr reparse_preds sugg sim interp_with interp_fn interp_attrs (VcRecv b pass fm sup) (mkVE i attrs' ident discr style fields))
+    /\ (forall r i attrs attrs' ident vis g body, same_selection (dr_b r) attrs attrs' ->
+          from_derive_input pf reparse reparse_arr reparse_preds sugg sim interp_with interp_fn interp_attrs interp_data r (mkDIn i attrs ident vis g body)
+          = from_derive_input pf reparse reparse_arr reparse_preds sugg sim interp_with interp_fn interp_attrs interp_data r (mkDIn i attrs' ident vis g body)).
+Proof.
+  intros. repeat split.
+  - apply from_attributes_partition_invariant.
+  - apply from_field_partition_invariant.
+  - apply from_variant_partition_invariant.
+  - apply from_derive_input_partition_invariant.
+Qed.
+
 (** What "forwarded" means: not consumed, a place to keep it and a filter that can select
     something, and selected by the filter (all, when forward_attrs is given bare). *)
 Theorem C08_forwarded_meaning :
@@ -54,3 +78,4 @@ Print Assumptions C08_partition_invariant.
 Print Assumptions C08_unrelated_attribute_inert.
 Print Assumptions C08_forward_exact.
 Print Assumptions C08_forwarded_meaning.
+Print Assumptions C08_receivers_partition_invariant.
